@@ -211,11 +211,11 @@ def _plan(tier):
     rich = dict(refnames=("A", "B", "E", "S", "Ha", "Hb", "Hc"), slots=("f1", "f2", "x"))
     if tier == "thorough":
         return [
-            ("bfs2_chain", _cfg(maxlen=2, inits=("chain",), reqs=("present",), view="trans"), None, None, 5000),
-            ("bfs2_public", _cfg(maxlen=2, inits=("public",), reqs=("present", "a"), view="trans", **small), None, None, 2500),
-            ("bfs2_hole_cycle", _cfg(maxlen=2, inits=("hole", "cycle"), reqs=("present",), view="trans", **small), None, None, 2500),
+            ("bfs2_chain", _cfg(maxlen=2, inits=("chain",), reqs=("present",), view="trans"), None, None, 4000),
+            ("bfs2_public", _cfg(maxlen=2, inits=("public",), reqs=("present", "a"), view="trans", **small), None, None, 2000),
+            ("bfs2_hole_cycle", _cfg(maxlen=2, inits=("hole", "cycle"), reqs=("present",), view="trans", **small), None, None, 2000),
             ("bfs3_decls", _cfg(maxlen=3, inits=("late", "twins"), reqs=("present",), view="full", decls="ABES", refnames=("A",),
-                                slots=("f1",), defects=("unknown",), edits=DECL_EDITS), None, None, 5000),
+                                slots=("f1",), defects=("unknown",), edits=DECL_EDITS), None, None, 4000),
             ("sim_long", _cfg(files="abcd", maxlen=24, inits=("chain", "public", "flat", "hole", "cycle", "twins", "late"),
                               reqs=("present", "a", "all"), runs=("TRUE", "FALSE"), view="full", exportat="end", **rich), 250, 26, None),
         ]
